@@ -541,6 +541,9 @@ func forDotsCase(ctx *core.Ctx, idx int, res *core.Result) {
 		// two loops, the first is deleted: the kept one keeps its own header (pairing is by place, not by count)
 		{"-for ‹1:for› {\n-  gone()\n-}\n for ‹2:for› {\n-  target(«x»)\n+  repl(«x»)\n }", "target(3)"},
 		{" for ‹1:for› {\n   keep()\n }\n-for ‹2:for› {\n-  gone()\n-}\n for ‹3:for› {\n-  target(«x»)\n+  repl(«x»)\n }", "target(4)"},
+		// the loop is the last statement of a block that the pattern writes out, behind an elision (no implied '...' follows)
+		{" if enabled {\n   ‹2:stmts›\n   for ‹1:for› {\n-    target(«x»)\n+    repl(«x»)\n   }\n }", "target(5)"},
+		{" if enabled {\n   ‹2:stmts›\n-  for ‹1:for› {\n-    target(«x»)\n-  }\n+  for ‹1:for› {\n+    repl(«x»)\n+    more()\n+  }\n }", "target(6)"},
 	}
 	b := bodies[idx%len(bodies)]
 	c := &gen.Change{Kind: "stmts", Schema: "c04-for-dots", Meta: []gen.MetaVar{{Name: "x", Kind: "expression"}}}
@@ -554,6 +557,8 @@ func forDotsCase(ctx *core.Ctx, idx int, res *core.Result) {
 		fmt.Fprintf(&sb, "func labelled%d() {\nL%d:\n\tfor %s {\n\t%s\n\tcontinue L%d\n\t}\n}\n\n", i, i, h, b[1], i)
 		fmt.Fprintf(&sb, "func loop%d() {\n\tfor %s {\n\t%s\n\t}\n}\n\n", i, h, b[1])
 		fmt.Fprintf(&sb, "func notloop%d() {\n\tif c%d {\n\t%s\n\t}\n}\n\n", i, i, b[1])
+		fmt.Fprintf(&sb, "func lastInBlock%d() {\n\tif enabled {\n\t\tpre()\n\t\tfor %s {\n\t\t%s\n\t\t}\n\t}\n\tafter()\n}\n\n", i, h, b[1])
+		fmt.Fprintf(&sb, "func onlyInBlock%d() {\n\tif enabled {\n\t\tfor %s {\n\t\t%s\n\t\t}\n\t}\n}\n\n", i, h, b[1])
 		h2, h3 := loopHeaders[(i+1)%len(loopHeaders)], loopHeaders[(i+2)%len(loopHeaders)]
 		fmt.Fprintf(&sb, "func loops%d() {\n\tfor %s {\n\tkeep()\n\t}\n\tfor %s {\n\tgone()\n\t}\n\tfor %s {\n\t%s\n\t}\n}\n\n", i, h3, h2, h, b[1])
 	}
